@@ -280,6 +280,8 @@ class Executor(Exec):
             v = args[0]
             if isinstance(v, SPrim) and v.ty == "str": return k(v, st)
             return k(SOpaque("str()"), st)
+        if name in ("all", "any") and isinstance(args[0], SOpaqueObj):
+            return k(B(S.fresh(name, z3.BoolSort())), st)
         if name in ("all", "any"):
             sq = args[0]
             if not (isinstance(sq, SSeq) and sq.elem == "bool"): raise Unsupported(f"{name}() of {sq}")
@@ -473,6 +475,12 @@ class Executor(Exec):
                 st = st.put(recv.ref, ListCell(c.elem, c.n + 1, z3.Store(c.arr, c.n, mem)))
                 h = dict(st.heap); h[v.ref] = Retired()
                 return k(SNone(), st.but(heap=h))
+            if isinstance(c.elem, tuple) and c.elem[0] == "seq" and not isinstance(v, SSeq):
+                try:
+                    sv = ops.as_seq(st, v)
+                    if sv.elem == c.elem[1]: v = SSeq(sv.elem, sv.n, sv.arr)        # a list stored into a list of sequences: by value
+                except Unsupported:
+                    pass
             if v.ty != c.elem: raise Unsupported("list.append of another element type")
             return k(SNone(), st.put(recv.ref, ListCell(c.elem, c.n + 1, z3.Store(c.arr, c.n, term_of(v)))))
         if name == "copy":
